@@ -107,7 +107,7 @@ def read_doc(path, root=None):
                 d['transitions'].append({'targets': (ch.get('target') or '').split(), 'has_target': ch.get('target') is not None,
                                          'internal': (ch.get('type') or '').lower() == 'internal',
                                          'event': ch.get('event'), 'cond': ch.get('cond'),
-                                         'has_content': any(isinstance(g.tag, str) for g in ch),
+                                         'has_content': any(isinstance(g.tag, str) for g in ch), 'el': ch,
                                          'lognum': (lambda kids: int(kids[0].get('expr')[1:]) if len(kids) == 1 and _local(kids[0].tag) == 'log' and re.match(r'^T\d\d$', kids[0].get('expr') or '') else -1)([g for g in ch if isinstance(g.tag, str)])})
             elif t in STATE_TAGS and t != 'scxml':
                 walk(ch, me)
@@ -191,6 +191,95 @@ def match(elems, em):
     return e2d
 
 
+SEQ_ATTR = {'raise': 'event', 'send': 'event', 'log': 'expr', 'assign': 'location', 'cancel': 'sendid'}
+
+
+def seq_facts(elems, e2d, n, trans):
+    """Control-flow successor tables of the executable content of a document that follows the SEQ convention: every
+    executable element carries a number q<nn>/Q<nn> (unique, 1..99) in its identifying attribute.  kind: 1 plain element,
+    2 condition of <if>/<elseif>.  next[n]: number executed after plain element n (0 = end of the handler);
+    true[n]/false[n]: where a condition goes.  None if the document does not follow the convention."""
+    import re as _re
+    kind, nxt, tru, fal, entry = {}, {}, {}, {}, {}
+    ok = [True]
+
+    def num(el, attr):
+        m = _re.match(r'^[qQ](\d\d)$', el.get(attr) or '')
+        if not m or int(m.group(1)) == 0 or int(m.group(1)) in kind:
+            ok[0] = False
+            return 0
+        return int(m.group(1))
+
+    def block(children, after):
+        cur = after
+        for el in reversed(children):
+            t = _local(el.tag)
+            if t == 'if':
+                parts, cur_part = [], [num(el, 'cond'), []]
+                else_part = None
+                for ch in [c for c in el if isinstance(c.tag, str)]:
+                    ct = _local(ch.tag)
+                    if ct == 'elseif':
+                        parts.append(cur_part)
+                        cur_part = [num(ch, 'cond'), []]
+                    elif ct == 'else':
+                        parts.append(cur_part)
+                        cur_part = None
+                        else_part = []
+                    elif else_part is not None:
+                        else_part.append(ch)
+                    else:
+                        cur_part[1].append(ch)
+                if cur_part is not None:
+                    parts.append(cur_part)
+                ft = block(else_part, cur) if else_part is not None else cur
+                for cn, kids in reversed(parts):
+                    kind[cn] = 2
+                    tru[cn] = block(kids, cur)
+                    fal[cn] = ft
+                    ft = cn
+                cur = ft
+            elif t in SEQ_ATTR:
+                k = num(el, SEQ_ATTR[t])
+                kind[k] = 1
+                nxt[k] = cur
+                cur = k
+            else:
+                ok[0] = False
+        return cur
+
+    def handler(blocks):
+        cur = 0
+        for b in reversed(blocks):
+            cur = block([c for c in b if isinstance(c.tag, str)], cur)
+        if cur:
+            entry[cur] = 1
+        return cur
+
+    onentry, onexit = [0] * n, [0] * n
+    any_content = False
+    for k in range(n):
+        el = elems[e2d[k]]['el']
+        ns = el.tag[:-len(_local(el.tag))]
+        for tag, arr in (('onentry', onentry), ('onexit', onexit)):
+            blocks = [c for c in el if isinstance(c.tag, str) and c.tag == ns + tag]
+            if blocks:
+                any_content = True
+                arr[k] = handler(blocks)
+    tr = []
+    for _, t, _ in trans:
+        kids = [c for c in t['el'] if isinstance(c.tag, str)]
+        if kids:
+            any_content = True
+        tr.append(handler([t['el']]) if kids else 0)
+    if not ok[0] or not any_content or not kind:
+        return None
+    mx = max(kind)
+    arr = lambda d: [d.get(i, 0) for i in range(mx + 1)]
+    return {'max': mx, 'kind': arr(kind), 'next': arr(nxt), 'true': arr(tru), 'false': arr(fal), 'entry': arr(entry),
+            'onentry': onentry, 'onexit': onexit, 'trans': tr}
+
+
 def c_str(s):
     if s is None:
         return 'NULL'
@@ -271,6 +360,15 @@ def facts_c(doc_path, ctext, index=0, root=None):
     out.append('#define D_ORDER_LOG %d' % (1 if order_log else 0))
     out.append('static const int d_lognum[D_N] = { %s };' % ', '.join(str(elems[e2d[k]]['lognum'] if (order_log and k in proper) else -1) for k in range(n)))
     arr('d_tlognum', [str(tr['lognum'] if order_log else -1) for _, tr, _ in trans])
+    # SEQ convention (corpus/c17_exec_content_seq.scxml): control flow of the executable content, read from the XML
+    seq = seq_facts(elems, e2d, n, trans)
+    out.append('#define D_SEQ %d' % (seq['max'] if seq else 0))
+    if seq:
+        for nm in ('kind', 'next', 'true', 'false', 'entry'):
+            out.append('static const int d_seq_%s[D_SEQ + 1] = { %s };' % (nm, ', '.join(str(x) for x in seq[nm])))
+        out.append('static const int d_seq_onentry[D_N] = { %s };' % ', '.join(str(x) for x in seq['onentry']))
+        out.append('static const int d_seq_onexit[D_N] = { %s };' % ', '.join(str(x) for x in seq['onexit']))
+        out.append('static const int d_seq_trans[D_T + 1] = { %s };' % ', '.join(str(x) for x in seq['trans'] + [0]))
     out.append('static const char *const d_tevent[D_T + 1] = { %s };' % ', '.join([c_str(tr['event']) for _, tr, _ in trans] + ['NULL']))
     info = {'states': n, 'transitions': T, 'machines_in_file': em['machines'], 'unresolved_target_ids': unresolved,
             'idless_elements': sum(1 for e in elems if e['id'] is None) - 1, 'prefix': em['prefix'],
